@@ -1,5 +1,252 @@
-(* RoundTripProofs.v — proofs about the round-trip model (C15). *)
+(* RoundTripProofs.v — proofs about the round-trip model (C15): String_Show / String_Look,
+   decimal integers ("%li" and the flagged d/i/u forms), composition over sequences with
+   separators for the String source and the File source.  The Float part is RoundTripFloat.v. *)
 From Coq Require Import List NArith ZArith Bool Lia.
 From CelloV Require Import RoundTrip.
 Import ListNotations.
 Local Open Scope N_scope.
+
+(* ================================================================== escape tables *)
+
+(* what the two switch tables must satisfy (checked by vm_compute on the generated tables):
+   every escaped byte is non-NUL and its letter decodes back to it; the quote and the backslash
+   are among the escaped bytes *)
+Definition esc_tables_ok (se le : list (N * N)) : bool :=
+  forallb (fun cl => match assoc (snd cl) le with
+                     | Some c' => (c' =? fst cl) && negb (fst cl =? 0)
+                     | None => false
+                     end) se
+  && (match assoc c_quote se with Some _ => true | None => false end)
+  && (match assoc c_bslash se with Some _ => true | None => false end).
+
+Lemma assoc_in : forall k v l, assoc k l = Some v -> In (k, v) l.
+Proof.
+  induction l as [|[a b] l IH]; simpl; intros H; [discriminate|].
+  destruct (a =? k) eqn:E.
+  - apply N.eqb_eq in E. inversion H; subst. now left.
+  - right. now apply IH.
+Qed.
+
+Lemma tables_escaped : forall se le c l,
+  esc_tables_ok se le = true -> assoc c se = Some l -> assoc l le = Some c /\ c <> 0.
+Proof.
+  intros se le c l Hok Ha. unfold esc_tables_ok in Hok.
+  apply andb_prop in Hok as [Hok _]. apply andb_prop in Hok as [Hok _].
+  rewrite forallb_forall in Hok. specialize (Hok (c, l) (assoc_in _ _ _ Ha)). simpl in Hok.
+  destruct (assoc l le) as [c'|]; [|discriminate].
+  apply andb_prop in Hok as [H1 H2]. apply N.eqb_eq in H1. subst c'.
+  split; [reflexivity|]. intros ->. discriminate.
+Qed.
+
+Lemma tables_plain : forall se le c,
+  esc_tables_ok se le = true -> assoc c se = None -> c <> c_quote /\ c <> c_bslash.
+Proof.
+  intros se le c Hok Ha. unfold esc_tables_ok in Hok.
+  apply andb_prop in Hok as [Hok Hb]. apply andb_prop in Hok as [_ Hq].
+  split; intros ->; rewrite Ha in *; discriminate.
+Qed.
+
+(* ================================================================== String_Show / String_Look *)
+
+Definition nul_free (s : text) : Prop := Forall (fun c => c <> 0) s.
+
+Lemma push_nonzero : forall acc c, c <> 0 -> push acc c = acc ++ [c].
+Proof. intros acc c H. unfold push. apply N.eqb_neq in H. now rewrite H. Qed.
+
+Lemma look_loop_show : forall se le, esc_tables_ok se le = true ->
+  forall s rest acc n, nul_free s ->
+  look_loop true le (flat_map (show_char se) s ++ c_quote :: rest) acc n
+  = LDone (acc ++ s) (n + length (flat_map (show_char se) s) + 1).
+Proof.
+  intros se le Hok s. induction s as [|c s IH]; intros rest acc n Hs.
+  - simpl. rewrite app_nil_r. f_equal. lia.
+  - inversion Hs as [|? ? Hc Hs']; subst.
+    simpl flat_map. destruct (assoc c se) as [l|] eqn:Ha.
+    + destruct (tables_escaped _ _ _ _ Hok Ha) as [Hl Hc0].
+      assert (Hsc : show_char se c = [c_bslash; l]) by (unfold show_char; now rewrite Ha).
+      rewrite Hsc. cbn [app look_loop].
+      replace (c_bslash =? c_quote) with false by reflexivity.
+      replace (c_bslash =? c_bslash) with true by reflexivity.
+      rewrite Hl. rewrite push_nonzero by assumption.
+      rewrite IH by assumption. f_equal.
+      * rewrite <- app_assoc. reflexivity.
+      * simpl. lia.
+    + destruct (tables_plain _ _ _ Hok Ha) as [Hq Hb].
+      assert (Hsc : show_char se c = [c]) by (unfold show_char; now rewrite Ha).
+      rewrite Hsc. cbn [app look_loop].
+      apply N.eqb_neq in Hq, Hb. rewrite Hq, Hb.
+      rewrite push_nonzero by assumption.
+      rewrite IH by assumption. f_equal.
+      * rewrite <- app_assoc. reflexivity.
+      * simpl. lia.
+Qed.
+
+(* look (show s ++ anything) = s, consuming exactly the characters show wrote *)
+Theorem string_roundtrip : forall se le, esc_tables_ok se le = true ->
+  forall s rest, nul_free s ->
+  look_string true le (show_string se s ++ rest) = LDone s (length (show_string se s)).
+Proof.
+  intros se le Hok s rest Hs. unfold look_string, show_string.
+  cbn [app]. replace (c_quote =? c_quote) with true by reflexivity.
+  rewrite <- app_assoc. cbn [app].
+  rewrite look_loop_show by assumption. simpl. f_equal.
+  rewrite app_length. simpl. lia.
+Qed.
+
+(* show never writes a NUL and is injective enough: its length is at least |s| + 2 *)
+Lemma show_string_length : forall se s, (length s + 2 <= length (show_string se s))%nat.
+Proof.
+  intros se s. unfold show_string. simpl. rewrite app_length. simpl.
+  assert (length s <= length (flat_map (show_char se) s))%nat.
+  { induction s as [|c s IH]; simpl; [lia|]. rewrite app_length.
+    unfold show_char at 1. destruct (assoc c se); simpl; lia. }
+  lia.
+Qed.
+
+(* ================================================================== digits *)
+
+Ltac nb1 := match goal with
+  | |- context [N.ltb ?a ?b] => destruct (N.ltb_spec a b)
+  | |- context [N.leb ?a ?b] => destruct (N.leb_spec a b)
+  | |- context [N.eqb ?a ?b] => destruct (N.eqb_spec a b)
+  end; cbn [andb orb negb]; cbv beta iota; try lia.
+Ltac nb := repeat nb1.
+
+Lemma digit_in_char : forall base upper d, d < base -> base <= 16 ->
+  digit_in base (digit_char upper d) = Some d.
+Proof.
+  intros base upper d Hd Hb. unfold digit_in, digit_val, digit_char.
+  destruct upper; cbv beta iota; nb; try (f_equal; lia).
+Qed.
+
+Definition all_digits (base : N) (ds : text) : Prop := Forall (fun c => digit_in base c <> None) ds.
+
+Fixpoint value_of (base : N) (ds : text) (acc : N) : N :=
+  match ds with
+  | [] => acc
+  | c :: r => match digit_in base c with
+              | Some d => value_of base r (acc * base + d)
+              | None => acc
+              end
+  end.
+
+Definition stops (base : N) (rest : text) : Prop :=
+  match rest with [] => True | c :: _ => digit_in base c = None end.
+
+Lemma scan_digits_app : forall base ds rest acc k, all_digits base ds ->
+  scan_digits base (ds ++ rest) acc k = scan_digits base rest (value_of base ds acc) (k + length ds).
+Proof.
+  intros base ds. induction ds as [|c r IH]; intros rest acc k H.
+  - simpl. f_equal. lia.
+  - inversion H as [|? ? Hc Hr]; subst. simpl.
+    destruct (digit_in base c) as [d|]; [|congruence].
+    rewrite IH by assumption. f_equal. lia.
+Qed.
+
+Lemma scan_digits_stop : forall base rest acc k, stops base rest ->
+  scan_digits base rest acc k = (acc, k, rest).
+Proof.
+  intros base rest acc k H. destruct rest as [|c r]; simpl; [reflexivity|].
+  simpl in H. now rewrite H.
+Qed.
+
+Lemma value_of_app : forall base a b acc, all_digits base a ->
+  value_of base (a ++ b) acc = value_of base b (value_of base a acc).
+Proof.
+  intros base a. induction a as [|c r IH]; intros b acc H; simpl; [reflexivity|].
+  inversion H as [|? ? Hc Hr]; subst.
+  destruct (digit_in base c) as [d|]; [|congruence]. now apply IH.
+Qed.
+
+Lemma value_of_acc : forall base ds acc, all_digits base ds ->
+  value_of base ds acc = acc * base ^ N.of_nat (length ds) + value_of base ds 0.
+Proof.
+  intros base ds. induction ds as [|c r IH]; intros acc H.
+  - simpl. lia.
+  - inversion H as [|? ? Hc Hr]; subst. cbn [value_of length].
+    destruct (digit_in base c) as [d|]; [|congruence].
+    rewrite (IH (acc * base + d)) by assumption. rewrite (IH (0 * base + d)) by assumption.
+    rewrite Nat2N.inj_succ, N.pow_succ_r'. lia.
+Qed.
+
+Lemma all_digits_app : forall base a b, all_digits base a -> all_digits base b -> all_digits base (a ++ b).
+Proof. intros. now apply Forall_app. Qed.
+
+Section Digits.
+  Variable base : N.
+  Variable upper : bool.
+  Hypothesis base_lo : 2 <= base.
+  Hypothesis base_hi : base <= 16.
+
+  Lemma div_fuel : forall f n, n < 2 ^ N.of_nat (S f) -> n / base < 2 ^ N.of_nat f.
+  Proof.
+    intros f n H. rewrite Nat2N.inj_succ, N.pow_succ_r' in H.
+    apply N.div_lt_upper_bound; [lia|]. nia.
+  Qed.
+
+  (* fuel adequacy: with n < 2^f the digits are produced completely *)
+  Lemma digits_fuel_all : forall f n, n < 2 ^ N.of_nat f -> all_digits base (digits_fuel base upper f n).
+  Proof.
+    induction f as [|f IH]; intros n H; [constructor|].
+    cbn [digits_fuel]. destruct (N.ltb_spec n base).
+    - constructor; [|constructor]. rewrite digit_in_char by lia. discriminate.
+    - apply all_digits_app; [apply IH, div_fuel, H|].
+      constructor; [|constructor]. rewrite digit_in_char; [discriminate| |lia].
+      apply N.mod_lt. lia.
+  Qed.
+
+  Lemma digits_fuel_value : forall f n, n < 2 ^ N.of_nat f -> value_of base (digits_fuel base upper f n) 0 = n.
+  Proof.
+    induction f as [|f IH]; intros n H.
+    - simpl in *. lia.
+    - cbn [digits_fuel]. destruct (N.ltb_spec n base).
+      + cbn [value_of]. rewrite digit_in_char by lia. lia.
+      + rewrite value_of_app by (apply digits_fuel_all, div_fuel, H).
+        rewrite IH by (apply div_fuel, H). cbn [value_of].
+        rewrite digit_in_char; [| apply N.mod_lt; lia | lia].
+        rewrite (N.div_mod' n base) at 3. lia.
+  Qed.
+
+  Lemma log2_fuel : forall n, n < 2 ^ N.of_nat (S (N.to_nat (N.log2 n))).
+  Proof.
+    intros n. rewrite Nat2N.inj_succ, N2Nat.id.
+    destruct (N.eq_dec n 0) as [->|Hn]; [reflexivity|].
+    apply N.log2_spec. lia.
+  Qed.
+
+  Lemma print_nat_all : forall n, all_digits base (print_nat base upper n).
+  Proof. intros n. apply digits_fuel_all, log2_fuel. Qed.
+
+  Lemma print_nat_value : forall n, value_of base (print_nat base upper n) 0 = n.
+  Proof. intros n. apply digits_fuel_value, log2_fuel. Qed.
+
+  (* the first digit of a positive number is not 0; zero is the single digit 0 *)
+  Lemma digits_fuel_head : forall f n, 0 < n -> n < 2 ^ N.of_nat f ->
+    exists d0 t, digits_fuel base upper f n = d0 :: t /\ d0 <> c_zero.
+  Proof.
+    induction f as [|f IH]; intros n Hp H.
+    - simpl in H. lia.
+    - cbn [digits_fuel]. destruct (N.ltb_spec n base).
+      + exists (digit_char upper n), []. split; [reflexivity|].
+        unfold digit_char, c_zero. destruct upper; nb.
+      + destruct (IH (n / base)) as (d0 & t & E & Hd).
+        * apply N.div_str_pos. lia.
+        * apply div_fuel, H.
+        * rewrite E. exists d0, (t ++ [digit_char upper (n mod base)]). split; [reflexivity|assumption].
+  Qed.
+
+  Lemma print_nat_head : forall n, 0 < n -> exists d0 t, print_nat base upper n = d0 :: t /\ d0 <> c_zero.
+  Proof. intros n H. apply digits_fuel_head; [assumption|apply log2_fuel]. Qed.
+
+  Lemma print_nat_nonempty : forall n, print_nat base upper n <> [].
+  Proof.
+    intros n. unfold print_nat. cbn [digits_fuel].
+    destruct (n <? base); [discriminate|]. intros E. apply app_eq_nil in E. destruct E; discriminate.
+  Qed.
+End Digits.
+
+Lemma print_nat_zero : forall base upper, 2 <= base -> print_nat base upper 0 = [c_zero].
+Proof.
+  intros base upper H. unfold print_nat. cbn.
+  destruct (N.ltb_spec 0 base); [reflexivity|lia].
+Qed.
